@@ -28,7 +28,7 @@ Theorem C12_pull_from_empty_store : forall t v c, conserved c -> nonneg (t_sto t
 Proof. exact t_pull_spec. Qed.
 Print Assumptions C12_pull_from_empty_store.
 
-(* ---- every division of the library (table regenerated from the source on every run, T4) ----
+(* ---- every division of the library (table regenerated from the source on every run, T5) ----
    is one of the reviewed sites: same function, same divisor, same guarding conditions.  A division that
    appears, changes its divisor or loses a guard breaks this obligation; the boundary-stream monitors
    then look for the input on which it raises. *)
